@@ -72,7 +72,7 @@ Ltac sproj :=
 Ltac unf_step H :=
   unfold step_env, step_g, step_gsx, step_gsk, step_x, step_xstop, step_xacq, step_w, step_r,
          step_c, step_cctx, step_cpanic, step_cout, cas_panic, cancel_enter, cancel_fin,
-         set_w, load_outcome in H.
+         set_w, load_outcome, deferred_outcome in H.
 
 (* case analysis on everything the step function matches on; H : .. = Some s' *)
 Ltac inv_step H :=
@@ -676,14 +676,14 @@ Proof.
   all: try solve [exfalso; match goal with E : _ = true |- _ =>
                     simpl in E; destruct (I1 E); discriminate end].
   all: try solve [exfalso; destruct (I1 eq_refl); discriminate].
+  all: try solve [destruct (I1 eq_refl) as [X|X]; [discriminate|]; subst r; simpl in Hr;
+                  exists pre; split; [assumption|]; rewrite app_nil_r in Hr; rewrite Hr;
+                  destruct Hc as [(? & ? & ?)|?]; auto].
   - exfalso. apply (NP p). rewrite Hr. apply in_elt.
   - exists pre. split; [assumption|].
     repeat match goal with |- context[match ?x with _ => _ end] => destruct x end; intuition.
   - exists pre. split; [assumption|]. right. eauto.
   - exists pre. split; [assumption|]. left. intuition.
-  - destruct (I1 eq_refl) as [X|X]; [discriminate|]. subst r. simpl in Hr.
-    exists pre. split; [assumption|]. rewrite app_nil_r in Hr. rewrite Hr.
-    destruct Hc as [(? & ? & ?)|?]; auto.
   - exists (pre ++ [RWrite k]). split; [rewrite Hr, <- app_assoc; reflexivity|].
     right; right. split; auto. rewrite Hr, writes_app, app_length.
     destruct Hc as [(? & ? & ?)|(k0 & ? & Hw)]; [discriminate|]. rewrite Hw. simpl. lia.
